@@ -123,9 +123,10 @@ C04_FlagsTruthful(o) ==
 
 \* the cases the property lists as "return an error and leave the store untouched"
 ConsentMissing(o) ==
-    \/ Req(o).uv /\ o.cfg.uvCap # "configured"
-    \/ IsMc(o) /\ ~Req(o).up
-    \/ \E j \in 1..Len(o.evs) : o.evs[j].ev = "Prompt" /\ ~Satisfied(o, o.evs[j])
+    /\ o.b.op \in {"mc", "ga"}
+    /\ \/ Req(o).uv /\ o.cfg.uvCap # "configured"
+       \/ IsMc(o) /\ ~Req(o).up
+       \/ \E j \in 1..Len(o.evs) : o.evs[j].ev = "Prompt" /\ ~Satisfied(o, o.evs[j])
 
 C04_NoConsentNoEffect(o) ==
     (Finished(o) /\ Lower(o) /\ ConsentMissing(o) /\ ~Crashed(o)) =>
@@ -237,7 +238,7 @@ C07_StoreErrorReported(o) ==
     (Ends(o) # <<>> /\ Lower(o)) =>
         \A i \in 1..Len(o.evs) :
             (o.evs[i].ev = "Store" /\ o.evs[i].d.call \in {"save", "update"} /\ ~o.evs[i].d.ok) =>
-                ~EndOk(o) /\ EndD(o).err = o.evs[i].d.err
+                ~EndOk(o) /\ ErrIs(o, o.evs[i].d.err)
 
 -----------------------------------------------------------------------------
 (* C08 - signature counters                                                 *)
